@@ -2,6 +2,7 @@ package hx
 
 import (
 	"fmt"
+	"github.com/ipfs/go-cid"
 	"math/rand"
 	"runtime"
 	"sync"
@@ -36,6 +37,10 @@ func (s Step) String() string {
 		return fmt.Sprintf("join(r%d<-load of the newest %d entries of r%d)", s.R, s.PC, s.S)
 	case "joinalien":
 		return fmt.Sprintf("cross-key-merges(r%d <-> log written with another link key)", s.R)
+	case "joinotherid":
+		return fmt.Sprintf("join(r%d<-log with ANOTHER id holding the entries of r%d (which carry this log's id))", s.R, s.S)
+	case "joinforeignmid":
+		return fmt.Sprintf("join(r%d<-entries of r%d + an entry of ANOTHER log id on top of them + a valid entry on top of that)", s.R, s.S)
 	case "joinrelabelled":
 		return fmt.Sprintf("join(r%d<-copy of r%d + 2 new valid entries, the older of which CLAIMS the hash of r%d's own entry #%d and is filed under its true hash)", s.R, s.R, s.R, s.S)
 	case "joinmislabelled":
@@ -55,12 +60,12 @@ func (s Step) String() string {
 // ExpectsError: operations that the library refuses (and that must leave the log as it was). "joinimpostor"
 // may be refused or succeed; see MustNotChange.
 func (s Step) ExpectsError() bool {
-	return s.Op == "denyappend" || s.Op == "joinrejected" || s.Op == "joinalien" || s.Op == "joinimpostor" || s.Op == "joinmislabelled" || s.Op == "joinrelabelled"
+	return s.Op == "denyappend" || s.Op == "joinrejected" || s.Op == "joinalien" || s.Op == "joinimpostor" || s.Op == "joinmislabelled" || s.Op == "joinrelabelled" || s.Op == "joinotherid"
 }
 
 // MustNotChange: operations after which the replica must be as before whether or not an error is returned.
 func (s Step) MustNotChange() bool {
-	return s.Op == "joinimpostor" || s.Op == "joinmislabelled" || s.Op == "joinself" || s.Op == "joinempty" || s.Op == "joinforeign"
+	return s.Op == "joinimpostor" || s.Op == "joinmislabelled" || s.Op == "joinotherid" || s.Op == "joinself" || s.Op == "joinempty" || s.Op == "joinforeign"
 }
 
 type History struct {
@@ -88,6 +93,7 @@ type GenOpts struct {
 	Bursts      bool // also generate concurrent bursts on one replica (appends || merges || reads)
 	Failures    bool // also generate refused operations (denied appends, rejected merges) and forks
 	Extra       bool // also generate setident / reload steps (C04)
+	Hostile     bool // with Failures: also merges of logs that hold a validly signed entry of ANOTHER log id in the middle of their history (C02, C03; the loaders do not filter by log id, so monitors that rebuild logs from storage do not use it)
 	MaxSteps    int
 	Orders      []string
 	Codecs      []string
@@ -175,7 +181,15 @@ func Gen(seed int64, idx int, o GenOpts) *History {
 		}
 		if o.Failures && len(h.Steps) < n && rng.Intn(7) == 0 {
 			// a refused operation or a fork, followed by ordinary traffic
-			switch rng.Intn(8) {
+			switch rng.Intn(10) {
+			case 9:
+				// e.g. NewFromEntryHash(head of this log, LogOptions{ID: "something else"}): merging with a log of a
+				// different id changes nothing, whatever it holds
+				h.Steps = append(h.Steps, Step{Op: "joinotherid", R: s.R, S: (s.R + 1 + rng.Intn(h.Replicas-1)) % h.Replicas})
+			case 8:
+				if h.Codec != "pb" && o.Hostile {
+					h.Steps = append(h.Steps, Step{Op: "joinforeignmid", R: s.R, S: rng.Intn(h.Replicas)})
+				}
 			case 7:
 				// a validly signed new entry whose hash FIELD names an entry this replica holds: it may be merged or
 				// refused, but it must not take the place of the held entry
@@ -644,6 +658,56 @@ func (x *Exec) Do(i int) StepResult {
 		}
 		_, jerr := l.Join(tmp, -1)
 		return StepResult{Err: jerr}
+	case "joinotherid":
+		src := x.Logs[s.S]
+		lo := x.W.LogOpts(x.W.LogID + "-another-id")
+		lo.AccessController = nil
+		lo.Entries = src.GetEntries()
+		lo.Heads = src.Heads().Slice()
+		tmp, err := ipfslog.NewLog(x.W.Store.API(), x.W.Idents[x.Writer[s.S]], lo)
+		if err != nil {
+			panic(err)
+		}
+		_, jerr := l.Join(tmp, -1)
+		return StepResult{Err: jerr}
+	case "joinforeignmid":
+		src := x.Logs[s.S]
+		heads := src.Heads().Slice()
+		if len(heads) == 0 {
+			return StepResult{}
+		}
+		maxT := 0
+		var next []cid.Cid
+		for _, hd := range heads {
+			next = append(next, hd.GetHash())
+			if t := hd.GetClock().GetTime(); t > maxT {
+				maxT = t
+			}
+		}
+		id := x.W.Idents[x.Writer[s.S]]
+		f, err := entry.CreateEntryWithIO(x.W.Ctx, x.W.Store.API(), id, &entry.Entry{LogID: x.W.LogID + "-foreign", Payload: []byte(fmt.Sprintf("%d.%d/fm%d.f", x.H.Seed, x.H.Idx, i)),
+			Next: next, Clock: entry.NewLamportClock(id.PublicKey, maxT+1)}, nil, x.W.IOv())
+		if err != nil {
+			return StepResult{Err: err}
+		}
+		v, err := entry.CreateEntryWithIO(x.W.Ctx, x.W.Store.API(), id, &entry.Entry{LogID: x.W.LogID, Payload: []byte(fmt.Sprintf("%d.%d/fm%d.v", x.H.Seed, x.H.Idx, i)),
+			Next: []cid.Cid{f.GetHash()}, Clock: entry.NewLamportClock(id.PublicKey, maxT+2)}, nil, x.W.IOv())
+		if err != nil {
+			return StepResult{Err: err}
+		}
+		ents := src.GetEntries()
+		ents.Set(f.GetHash().String(), f)
+		ents.Set(v.GetHash().String(), v)
+		lo := x.W.LogOpts(x.W.LogID)
+		lo.AccessController = nil
+		lo.Entries = ents
+		lo.Heads = []iface.IPFSLogEntry{v}
+		tmp, err := ipfslog.NewLog(x.W.Store.API(), id, lo)
+		if err != nil {
+			panic(err)
+		}
+		_, jerr := l.Join(tmp, -1)
+		return StepResult{Err: jerr, Entry: v}
 	case "joinrelabelled":
 		pool := l.Values().Slice()
 		if len(pool) == 0 {
